@@ -230,7 +230,7 @@ struct Shared {
 fn children(case: &Case, parent: &Job, n_dgrams: usize) -> Vec<Job> {
     let mut out = Vec::new();
     let depth = parent.schedule.len();
-    let start = parent.schedule.last().map(|(i, _)| *i + 1).unwrap_or(0);
+    let start = parent.schedule.last().map(|(i, _)| *i + 1).unwrap_or(0).max(case.first_index);
     // a blackhole-from ends the interesting part of the schedule
     if parent.schedule.iter().any(|(_, a)| matches!(a, Action::BlackholeFrom(_))) {
         return out;
